@@ -6,6 +6,9 @@ def row(cells): return "| " + " | ".join(cells) + " |"
 # seeds
 matrix = {m["mutant"]: m for m in json.load(open("seeded/MATRIX.json"))} if os.path.exists("seeded/MATRIX.json") else {}
 m2 = {m["mutant"]: m for m in json.load(open("seeded/MATRIX-w2.json"))} if os.path.exists("seeded/MATRIX-w2.json") else {}
+mall = {m["mutant"]: m for m in json.load(open("seeded/MATRIX-all.json"))} if os.path.exists("seeded/MATRIX-all.json") else {}
+matrix.update({k: v for k, v in mall.items() if re.fullmatch(r"C\d\d-\d", k)})
+m2.update({k: v for k, v in mall.items() if "-w2-" in k})
 for sd in ("C03-1", "C03-2"):
     if sd in m2 and sd not in matrix:
         matrix[sd] = m2[sd]
@@ -41,7 +44,17 @@ for d in sorted(glob.glob("seeded/C??-w2-?")):
     m = m2.get(seed)
     lines.append(row([seed, ", ".join(files), first.get(seed, "?"), "caught", (m["caught"].strip() if m else "(matrix pending)")]))
 seed2_table = "\n".join(lines)
-body = open("design_as_built.md").read().replace("@SEED2_TABLE@", seed2_table).replace("@SEED_TABLE@", seed_table).replace("@MUTANT_TABLE@", mut_table)
+own3 = json.load(open("seeded/OWN-w3.json")) if os.path.exists("seeded/OWN-w3.json") else {}
+first3 = json.load(open("seeded/OWN-w3-first.json")) if os.path.exists("seeded/OWN-w3-first.json") else {}
+lines = [row(["seed", "what was changed (file)", "own property, first evaluation", "own property now (quick)", "all checks catching it (matrix run, fuzz stage off)"]), "|---|---|---|---|---|"]
+for d in sorted(glob.glob("seeded/C??-w3-?")):
+    seed = os.path.basename(d)
+    patch = open(f"{d}/patch.diff").read()
+    files = sorted(set(re.findall(r"^\+\+\+ b/(\S+)", patch, re.M)))
+    m = mall.get(seed)
+    lines.append(row([seed, ", ".join(files), first3.get(seed, "?"), own3.get(seed, "?"), (m["caught"].strip() if m else "(not in matrix run)")]))
+seed3_table = "\n".join(lines)
+body = open("design_as_built.md").read().replace("@SEED3_TABLE@", seed3_table).replace("@SEED2_TABLE@", seed2_table).replace("@SEED_TABLE@", seed_table).replace("@MUTANT_TABLE@", mut_table)
 d = open("DESIGN.md").read()
 start = d.find("## A. As built")
 if start >= 0:
